@@ -2,7 +2,7 @@
    Gen/FileManager.v of generator/file_manager.go.  This file holds statements only;
    every proof is [exact lemma] and is followed by Print Assumptions. *)
 From Coq Require Import List Arith Bool Permutation.
-From Verif Require Import Base.Bytes Gen.FileManager Gen.FileManagerFacts Gen.FileManagerTerm Corr.C12 Gen.FileManagerSpec Gen.FileManagerText Gen.FileManagerExpand Gen.FileManagerOrder Gen.MarkerTable Gen.MarkerFacts.
+From Verif Require Import Base.Bytes Gen.FileManager Gen.FileManagerFacts Gen.FileManagerTerm Corr.C12 Gen.FileManagerSpec Gen.FileManagerText Gen.FileManagerExpand Gen.FileManagerOrder Gen.FileManagerFull Gen.MarkerTable Gen.MarkerFacts.
 Import ListNotations.
 
 (* Every history of Feed calls (any number of calls, any items): the assembled output never
@@ -156,6 +156,40 @@ Print Assumptions C12_expand_other.
 Theorem C12_expand_without_patches : forall s skip, expand [] skip s = strip_markers skip s.
 Proof. exact expand_nil. Qed.
 Print Assumptions C12_expand_without_patches.
+
+(* Text level at FULL strength — every history, any insertion point names: each output text is the
+   submitted text in which, at every position, the LONGEST key of the file's table that matches
+   there (the markers the scanner found in the submitted text and the markers of the patches
+   recorded for the file, `table_keys`) is replaced by the patches of that key in submission order,
+   a byte where no key matches is copied, and inserted text is not scanned again (`expand_keys`,
+   which mentions neither the listing order nor the replacer).  `C12_longest_key_spec` says what
+   `longest_key` returns; `C12_history_texts` above is the reading over the marker alphabet, where
+   at most one key matches at a position. *)
+Theorem C12_history_texts_full :
+  forall h m, feeds fm0 h = Ok m ->
+  build m = map (fun f => (fst f, expand_keys (table_keys (snd f) (patches_of m (fst f)))
+                                              (patches_of m (fst f)) 0 (snd f))) (files m).
+Proof. exact history_texts_full. Qed.
+Print Assumptions C12_history_texts_full.
+
+Theorem C12_file_text_full :
+  forall m name content,
+  build_one m (name, content) =
+  (name, expand_keys (table_keys content (patches_of m name)) (patches_of m name) 0 content).
+Proof. exact build_one_full. Qed.
+Print Assumptions C12_file_text_full.
+
+Theorem C12_longest_key_spec :
+  forall ks s k, longest_key ks s = Some k ->
+  In k ks /\ is_prefix k s = true /\
+  forall k', In k' ks -> is_prefix k' s = true -> List.length k' <= List.length k.
+Proof. exact longest_key_some. Qed.
+Print Assumptions C12_longest_key_spec.
+
+Theorem C12_no_key_matches_spec :
+  forall ks s, longest_key ks s = None -> forall k, In k ks -> is_prefix k s = false.
+Proof. exact longest_key_none. Qed.
+Print Assumptions C12_no_key_matches_spec.
 
 (* The replacer's table is a Go map.  BuildResponse lists its keys in descending string order
    before handing them to strings.NewReplacer (`listed_pairs`): the listing has the table's
